@@ -1,3 +1,14 @@
+// Audit of properties C01 (elementwise operators) and C19 (re-evaluation) on the UNMODIFIED code.
+//
+// Copy to tests/audit.rs and run:  cargo test --offline --test audit -- --test-threads=4
+//
+// Naming:
+//   c01_viol_* / c19_viol_*  : asserts what the property demands; FAILS on the current code (confirmed violation)
+//   c01_holds_* / c19_holds_* : hypotheses that were run and turned out to hold (tests pass)
+//   obs_*                    : observations outside the letter of the properties (see comments)
+//
+// The sweep c19_holds_sweep_interpreter_tests reads <worktree>/audit_progs.txt (the programs of tests/interpreter.rs,
+// separated by "\n=====PROG=====\n"); it is skipped when that file is absent.
 #![allow(warnings)]
 extern crate mech_syntax;
 extern crate mech_core;
@@ -5,13 +16,404 @@ use mech_syntax::*;
 use mech_core::*;
 use mech_interpreter::*;
 
-fn run(s: &str) -> MResult<Value> {
-  let tree = parser::parse(s).expect("parse");
+// ------------------------------------------------------------------------------------------------
+// helpers
+// ------------------------------------------------------------------------------------------------
+
+/// silence the (caught) panics of the interpreter, keep the assertion messages of this file
+fn quiet() {
+  std::panic::set_hook(Box::new(|info| {
+    if let Some(l) = info.location() { if l.file().ends_with("audit.rs") { eprintln!("{}", info); } }
+  }));
+}
+
+/// parse + interpret in a fresh interpreter; Err(kind name) on parse error / interpreter error
+fn run(s: &str) -> Result<Value, String> {
+  let tree = parser::parse(s).map_err(|_| "ParseError".to_string())?;
   let mut intrp = Interpreter::new(0);
-  intrp.interpret(&tree)
+  intrp.interpret(&tree).map_err(|e| format!("{}: {}", e.kind_name(), e.kind_message()))
+}
+
+fn strip_addr(s: &str) -> String {
+  let mut out = String::new();
+  let mut rest = s;
+  while let Some(i) = rest.find("@0x") {
+    out.push_str(&rest[..i]);
+    let tail = &rest[i + 3..];
+    let j = tail.find(|c: char| !c.is_ascii_hexdigit()).unwrap_or(tail.len());
+    rest = &tail[j..];
+  }
+  out.push_str(rest);
+  out
+}
+
+/// printable form of a value (no addresses, whitespace normalised) + its kind
+fn show(v: &Value) -> String {
+  format!("{} :: {:?}", strip_addr(&v.to_string()).split_whitespace().collect::<Vec<_>>().join(" "), v.kind())
+}
+fn text(v: &Value) -> String { strip_addr(&v.to_string()).split_whitespace().collect::<Vec<_>>().join(" ") }
+
+fn must_be_rejected(prog: &str) {
+  quiet();
+  match run(prog) {
+    Err(_) => {}
+    Ok(v) => panic!("`{}` has operands of incompatible shape and must be rejected with an error, but evaluates to {}", prog, show(&v)),
+  }
+}
+
+// ------------------------------------------------------------------------------------------------
+// C01 — confirmed violations
+// ------------------------------------------------------------------------------------------------
+
+// V1: "operands of incompatible shape are rejected with an error rather than a value".
+// Cause: impl_binop_match_arms (src/core/src/stdlib.rs) has no shape check in the dynamic same-class arms
+//   MDMD (l.742-745), RDRD (l.763-766), VDVD (l.784-787): `out` is sized from lhs only. add/sub/div happen to panic inside
+//   nalgebra (add_to/sub_to/component_div assert the shape), every other operator zips / indexes by lhs.len().
+#[test] fn c01_viol_mul_row_vectors_of_different_length() { must_be_rejected("[1 2 3 4 5] * [1 2 3 4 5 6]"); }   // => [1 4 9 16 25]
+#[test] fn c01_viol_mul_longer_lhs_pads_with_zero()        { must_be_rejected("[1 2 3 4 5 6] * [1 2 3 4 5]"); }   // => [1 4 9 16 25 0]
+#[test] fn c01_viol_mod_row_vectors_of_different_length() { must_be_rejected("[1 2 3 4 5] % [1 2 3 4 5 6]"); }   // => [0 0 0 0 0]
+#[test] fn c01_viol_pow_row_vectors_of_different_length() { must_be_rejected("[1 2 3 4 5] ^ [1 2 3 4 5 6]"); }   // => [1 4 27 256 3125]
+#[test] fn c01_viol_gt_row_vectors_of_different_length()  { must_be_rejected("[1 2 3 4 5] > [1 2 3 4 5 6]"); }   // => [false x5]
+#[test] fn c01_viol_eq_row_vectors_of_different_length()  { must_be_rejected("[1 2 3 4 5] == [1 2 3 4 5 6]"); }  // => [true x5]
+#[test] fn c01_viol_neq_col_vectors_of_different_length() { must_be_rejected("[1;2;3] != [1;2;3;4]"); }
+#[test] fn c01_viol_and_row_vectors_of_different_length() { must_be_rejected("[true true true true true] && [true true true true true false]"); }
+#[test] fn c01_viol_or_row_vectors_of_different_length()  { must_be_rejected("[true true true true true] || [true true true true true false]"); }
+#[test] fn c01_viol_xor_row_vectors_of_different_length() { must_be_rejected("[true true true true true] ⊕ [true true true true true false]"); }
+#[test] fn c01_viol_mul_2x4_by_4x2()                      { must_be_rejected("[1 2 3 4; 5 6 7 8] * [1 2; 3 4; 5 6; 7 8]"); } // => [1 10 6 24; 15 42 28 64]
+#[test] fn c01_viol_gt_2x3_by_its_transpose()             { must_be_rejected("A := [1 2 3; 4 5 6]; B := A'; A > B"); }
+#[test] fn c01_viol_mul_1x1_matrix_by_2x2()               { must_be_rejected("[5] * [1 2; 3 4]"); }                        // => [5]
+#[test] fn c01_viol_mul_2x2_by_1x1_matrix()               { must_be_rejected("[1 2; 3 4] * [5]"); }                        // => [5 0; 0 0]
+#[test] fn c01_viol_mul_range_by_longer_vector()          { must_be_rejected("x := 1..=3; x * [1 2 3 4 5]"); }           // => [1 4 9]
+
+// V2: "On scalars the operators agree with exact integer arithmetic whenever the exact result is representable".
+// -128 mod -1 == 0 is representable in i8, but Rust's `%` overflows.  Cause: mod_op / mod_vec_op / mod_scalar_*_op in
+// machines/math/src/ops/modulus.rs (l.79-81 ff.) use the raw `%`.
+#[test]
+fn c01_viol_i8_min_mod_minus_one_is_zero() {
+  quiet();
+  let r = run("a<i8> := -128; b<i8> := -1; a % b");
+  assert_eq!(r.as_ref().map(text), Ok("0".to_string()), "i8: -128 % -1 must be 0, got {:?}", r.as_ref().map(show));
+}
+#[test]
+fn c01_viol_i64_min_mod_minus_one_is_zero() {
+  quiet();
+  let r = run("a<i64> := -9223372036854775808; b<i64> := -1; a % b");
+  assert_eq!(r.as_ref().map(text), Ok("0".to_string()), "i64: MIN % -1 must be 0, got {:?}", r.as_ref().map(show));
+}
+#[test]
+fn c01_viol_i8_matrix_min_mod_minus_one() {
+  quiet();
+  let r = run("a<[i8]> := [-128 5]; b<i8> := -1; a % b");
+  assert!(r.is_ok(), "[-128 5] % -1 must be [0 0], got {:?}", r.as_ref().map(show));
+}
+
+// V3: accepted operands of different kinds give wrong / order-dependent answers, and acceptance is not lifted to matrices.
+// Cause: the fallback of impl_mech_binop_fxn (src/core/src/stdlib.rs l.1113-1123): when no arm matches, rhs is
+// *lossily* converted to the kind of lhs (Value::convert_to saturates / truncates), then lhs to the kind of rhs; the
+// fallback exists only for two non-reference scalars.
+#[test]
+fn c01_viol_u8_255_less_than_256() {
+  quiet();
+  // exact comparison: 255 < 256 is true.  (an error would also be acceptable: "rejected rather than a value")
+  match run("255u8 < 256") { Ok(v) => assert_eq!(text(&v), "true", "255u8 < 256"), Err(_) => {} }
+}
+#[test]
+fn c01_viol_u8_255_equals_256() {
+  quiet();
+  match run("255u8 == 256") { Ok(v) => assert_eq!(text(&v), "false", "255u8 == 256"), Err(_) => {} }
+}
+#[test]
+fn c01_viol_u8_zero_greater_than_minus_one() {
+  quiet();
+  match run("0u8 > -1") { Ok(v) => assert_eq!(text(&v), "true", "0u8 > -1"), Err(_) => {} }
+}
+#[test]
+fn c01_viol_mixed_kind_mul_depends_on_operand_order() {
+  quiet();
+  let a = run("3u8 * 1.5"); let b = run("1.5 * 3u8");
+  // multiplication is commutative: both orders must denote the same number (or both be rejected)
+  assert_eq!(a.as_ref().map(text).ok(), b.as_ref().map(text).ok(), "3u8 * 1.5 = {:?} but 1.5 * 3u8 = {:?}", a.as_ref().map(show), b.as_ref().map(show));
+}
+#[test]
+fn c01_viol_scalar_u8_plus_f64_accepted_but_matrix_rejected() {
+  quiet();
+  let s = run("1u8 + 1");
+  assert!(s.is_ok());
+  // "if an operator accepts scalars of a kind it also accepts ... a matrix with a scalar on either side"
+  let m = run("[1u8 2u8] + 1");
+  assert!(m.is_ok(), "1u8 + 1 = {:?} is accepted, but [1u8 2u8] + 1 => {:?}", s.as_ref().map(show), m.as_ref().map(show));
+}
+#[test]
+fn c01_viol_scalar_u8_plus_f64_accepted_but_not_through_a_variable() {
+  quiet();
+  assert!(run("1u8 + 1").is_ok());
+  let m = run("x := 1u8; x + 1");
+  assert!(m.is_ok(), "1u8 + 1 is accepted, but x := 1u8; x + 1 => {:?}", m.as_ref().map(show));
+}
+
+// V4: operators that accept a pair of scalar kinds but not the matrix forms of the same kinds.
+// Cause: impl_pow_fxn (machines/math/src/ops/pow.rs l.229-239) special-cases (R64, I32) scalars only (PowRational);
+//        impl_add_fxn (machines/math/src/ops/add.rs l.80-93) promotes a real to C64 only when the other operand is a *scalar* C64.
+#[test]
+fn c01_viol_rational_pow_accepted_for_scalar_only() {
+  quiet();
+  let s = run("p<i32> := 2; (1/2) ^ p");
+  assert_eq!(s.as_ref().map(text), Ok("1/4".to_string()));
+  let m = run("p<i32> := 2; [1/2 1/3] ^ p");
+  assert!(m.is_ok(), "(1/2) ^ p is accepted, [1/2 1/3] ^ p => {:?}", m.as_ref().map(show));
+}
+#[test]
+fn c01_viol_complex_plus_real_accepted_for_scalar_only() {
+  quiet();
+  let s = run("(1+2i) + 1");
+  assert_eq!(s.as_ref().map(text), Ok("2+2i".to_string()));
+  let m = run("[1+2i 3+4i] + 1");
+  assert!(m.is_ok(), "(1+2i) + 1 is accepted, [1+2i 3+4i] + 1 => {:?}", m.as_ref().map(show));
+}
+
+// V5: integer operands above 2^53: every numeric literal is parsed as f64 first (integer(), src/interpreter/src/literals.rs
+// l.304-307) and then converted by typed_literal (l.132-141), so distinct u64 operands collapse before the operator runs.
+#[test]
+fn c01_viol_u64_comparison_of_large_literals() {
+  quiet();
+  let r = run("18446744073709551615u64 == 18446744073709551614u64");
+  assert_eq!(r.as_ref().map(text), Ok("false".to_string()));
+}
+#[test]
+fn c01_viol_u64_add_zero_is_identity_above_2_pow_53() {
+  quiet();
+  let r = run("9007199254740993u64 + 0u64");
+  assert_eq!(r.as_ref().map(text), Ok("9007199254740993".to_string()));
+}
+
+// ------------------------------------------------------------------------------------------------
+// C01 — hypotheses that hold
+// ------------------------------------------------------------------------------------------------
+
+#[test] fn c01_holds_add_len_mismatch_rejected() { must_be_rejected("[1 2 3 4 5] + [1 2 3 4 5 6]"); } // (via a caught nalgebra panic)
+#[test] fn c01_holds_sub_len_mismatch_rejected() { must_be_rejected("[1 2 3 4 5] - [1 2 3 4 5 6]"); }
+#[test] fn c01_holds_div_len_mismatch_rejected() { must_be_rejected("[1 2 3 4 5] / [1 2 3 4 5 6]"); }
+#[test] fn c01_holds_matrix_with_wrong_row_vector_rejected() { must_be_rejected("[1 2; 3 4; 5 6] - [1 2 3]"); }
+#[test] fn c01_holds_matrix_with_wrong_col_vector_rejected() { must_be_rejected("[1 2; 3 4; 5 6] * [1; 2]"); }
+#[test] fn c01_holds_col_with_row_vector_rejected() { must_be_rejected("[1;2] + [1 2]"); }
+#[test] fn c01_holds_shorter_rhs_rejected() { must_be_rejected("[1 2 3 4 5 6 7] == [1 2 3]"); }
+
+#[test]
+fn c01_holds_scalar_semantics() {
+  quiet();
+  for (p, e) in [
+    ("7u8 / 2u8", "3"), ("a<i8> := -7; a / 2<i8>", "-3"), ("a<i8> := -7; a % 2<i8>", "-1"),
+    ("a<u8> := 15; b<u8> := 17; a * b", "255"), ("2u8 ^ 7u8", "128"), ("a<u32> := 0; b<u32> := 0; a ^ b", "1"),
+    ("a<u64> := 18446744073709551615; b<u64> := 1; a - b", "18446744073709551614"),
+    ("7 / 0", "inf"), ("0 / 0", "NaN"), ("7 % 0", "NaN"), ("0.1 + 0.2", "0.30000000000000004"), ("-0.0 == 0.0", "true"),
+    ("a := 0 / 0; a == a", "false"), ("a := 0 / 0; a != a", "true"), ("a := 0 / 0; a >= a", "false"),
+    ("1/2 + 1/3", "5/6"), ("1/2 - 1/3", "1/6"), ("1/2 * 2/3", "1/3"), ("(1/2) / (1/4)", "2/1"), ("1/2 == 2/4", "true"), ("1/2 < 2/3", "true"),
+    ("(1+2i) * (3+4i)", "-5+10i"), ("(1+2i) - (3+4i)", "-2-2i"),
+    ("true ⊕ true", "false"), ("true && false", "false"), ("false || true", "true"), ("!true", "false"),
+    ("\"a\" == \"a\"", "true"), ("\"a\" != \"b\"", "true"),
+  ] {
+    let r = run(p);
+    assert_eq!(r.as_ref().map(text), Ok(e.to_string()), "{}", p);
+  }
+  // inexact / unrepresentable results are errors, not values
+  for p in ["200u8 + 100u8", "a<u8> := 3; b<u8> := 5; a - b", "7u8 / 0u8", "7u8 % 0u8", "2u8 ^ 8u8", "a<i8> := -128; -a", "a<i8> := -128; b<i8> := -1; a / b"] {
+    assert!(run(p).is_err(), "{}", p);
+  }
+}
+
+// differential harness: M op N (every broadcast form) == the operator applied to the corresponding scalars
+fn lit(vals: &[Vec<String>]) -> String { format!("[{}]", vals.iter().map(|r| r.join(" ")).collect::<Vec<_>>().join("; ")) }
+fn mk(r: usize, c: usize, seed: usize, pool: &[&str]) -> Vec<Vec<String>> {
+  (0..r).map(|i| (0..c).map(|j| pool[(seed + i * c * 7 + j * 3 + i) % pool.len()].to_string()).collect()).collect()
+}
+fn diff_one(op: &str, a: &Vec<Vec<String>>, b: &Vec<Vec<String>>, a_scalar: bool, b_scalar: bool) -> Option<String> {
+  let (ar, ac) = (a.len(), a[0].len());
+  let (br, bc) = (b.len(), b[0].len());
+  let (rr, rc) = (ar.max(br), ac.max(bc));
+  let ls = if a_scalar { a[0][0].clone() } else { lit(a) };
+  let rs = if b_scalar { b[0][0].clone() } else { lit(b) };
+  let prog = format!("{} {} {}", ls, op, rs);
+  let mut exp: Vec<Vec<Result<String, String>>> = vec![];
+  for i in 0..rr { let mut row = vec![]; for j in 0..rc {
+    let x = &a[if ar == 1 { 0 } else { i }][if ac == 1 { 0 } else { j }];
+    let y = &b[if br == 1 { 0 } else { i }][if bc == 1 { 0 } else { j }];
+    row.push(run(&format!("{} {} {}", x, op, y)).map(|v| text(&v)));
+  } exp.push(row); }
+  let any_err = exp.iter().flatten().any(|e| e.is_err());
+  match run(&prog) {
+    Err(e) => if any_err { None } else { Some(format!("{} => ERR {} but the scalars give {:?}", prog, e, exp)) },
+    Ok(v) => {
+      if any_err { return Some(format!("{} => {} but some scalar pair is rejected {:?}", prog, show(&v), exp)); }
+      if a_scalar && b_scalar { return None; }
+      if v.shape() != vec![rr, rc] { return Some(format!("{} => shape {:?}, expected {:?}", prog, v.shape(), (rr, rc))); }
+      for i in 0..rr { for j in 0..rc {
+        let e = run(&format!("q := {}; q[{},{}]", prog, i + 1, j + 1)).map(|v| text(&v));
+        if e.as_ref().ok() != exp[i][j].as_ref().ok() { return Some(format!("{} => element ({},{}) = {:?}, expected {:?}", prog, i + 1, j + 1, e, exp[i][j])); }
+      }}
+      None
+    }
+  }
+}
+fn diff_kind(ops: &[&str], pool: &[&str]) {
+  quiet();
+  let shapes: &[((usize, usize), (usize, usize))] = &[
+    ((2,3),(2,3)), ((2,3),(1,1)), ((1,1),(2,3)), ((2,3),(2,1)), ((2,1),(2,3)), ((2,3),(1,3)), ((1,3),(2,3)),
+    ((1,5),(1,5)), ((3,1),(3,1)), ((3,3),(3,1)), ((3,3),(1,3)), ((3,1),(3,3)), ((1,3),(3,3)), ((3,2),(3,1)), ((3,2),(1,2)),
+    ((1,3),(1,1)), ((1,1),(3,1)), ((5,5),(5,5)), ((5,2),(1,2)), ((2,5),(2,1)), ((1,2),(5,2)), ((2,1),(2,5)), ((1,1),(1,1)),
+  ];
+  let mut bad = vec![];
+  for op in ops { for (k, ((ar, ac), (br, bc))) in shapes.iter().enumerate() {
+    let a = mk(*ar, *ac, k + 1, pool); let b = mk(*br, *bc, k + 4, pool);
+    if let Some(msg) = diff_one(op, &a, &b, (*ar, *ac) == (1, 1), (*br, *bc) == (1, 1)) { bad.push(msg); }
+  }}
+  assert!(bad.is_empty(), "{:#?}", bad);
+}
+#[test] fn c01_holds_diff_f64()  { diff_kind(&["+","-","*","/","%","^",">",">=","<","<=","==","!="], &["1","2","3","4","5","6","7","0.5","2.5","9"]); }
+#[test] fn c01_holds_diff_u8()   { diff_kind(&["+","-","*","/","%","^",">",">=","<","<=","==","!="], &["1u8","2u8","3u8","4u8","5u8","3u8","2u8","1u8","2u8","3u8"]); }
+#[test] fn c01_holds_diff_bool() { diff_kind(&["&&","||","⊕","==","!="], &["true","false","false","true","true","false","true"]); }
+#[test] fn c01_holds_diff_r64()  { diff_kind(&["+","-","*","/",">",">=","<","<=","==","!="], &["1/2","1/3","2/3","3/4","5/2","1/2","7/3"]); }
+#[test] fn c01_holds_diff_str()  { diff_kind(&["==","!="], &["\"a\"","\"b\"","\"c\"","\"a\"","\"b\""]); }
+
+// ------------------------------------------------------------------------------------------------
+// C19
+// ------------------------------------------------------------------------------------------------
+
+fn snap(intrp: &Interpreter) -> Vec<(String, String)> {
+  let syms = intrp.symbols();
+  let syms = syms.borrow();
+  let dict = syms.dictionary.borrow();
+  let mut out = vec![];
+  for (k, v) in syms.symbols.iter() {
+    let name = dict.get(k).cloned().unwrap_or(format!("{}", k));
+    out.push((name, show(&v.borrow())));
+  }
+  out.sort();
+  out
+}
+fn has_assign(s: &str) -> bool {
+  let t = s.replace(":=", "  ").replace("==", "  ").replace("!=", "  ").replace(">=", "  ").replace("<=", "  ").replace("=>", "  ");
+  t.contains('=')
+}
+/// returns (no-op under 3 single steps, deterministic & 3 single steps == one request for 3 steps), None if it does not parse/evaluate
+fn c19(s: &str) -> Option<(bool, bool, Vec<(String, String)>, Vec<(String, String)>)> {
+  let r = std::panic::catch_unwind(|| {
+    let tree = parser::parse(s).ok()?;
+    let mut i1 = Interpreter::new(0);
+    i1.interpret(&tree).ok()?;
+    let s0 = snap(&i1);
+    let mut snaps = vec![];
+    for _ in 0..3 { i1.step(0, 1); snaps.push(snap(&i1)); }
+    let mut i2 = Interpreter::new(0);
+    i2.interpret(&tree);
+    let t0 = snap(&i2);
+    i2.step(0, 3);
+    let t3 = snap(&i2);
+    let noop = snaps.iter().all(|x| *x == s0);
+    let det = s0 == t0 && snaps[2] == t3;
+    Some((noop, det, s0, snaps[2].clone()))
+  });
+  r.ok().flatten()
+}
+fn check_c19(progs: &[&str]) {
+  quiet();
+  let mut bad = vec![];
+  let mut n = 0;
+  for s in progs {
+    if let Some((noop, det, s0, s3)) = c19(s) {
+      n += 1;
+      if !det { bad.push(format!("NOT DETERMINISTIC / n single steps != n steps: {:?}", s)); }
+      if !noop && !has_assign(s) { bad.push(format!("NOT A NO-OP: {:?}\n   before {:?}\n   after  {:?}", s, s0, s3)); }
+    }
+  }
+  println!("{} programs checked", n);
+  assert!(bad.is_empty(), "{:#?}", bad);
 }
 
 #[test]
-fn smoke() {
-  println!("{:?}", run("1 + 1"));
+fn c19_holds_sweep_interpreter_tests() {
+  let path = format!("{}/audit_progs.txt", env!("CARGO_MANIFEST_DIR"));
+  let Ok(all) = std::fs::read_to_string(&path) else { println!("{} not found, skipped", path); return; };
+  let progs: Vec<&str> = all.split("\n=====PROG=====\n").collect();
+  check_c19(&progs);   // 575 programs: all deterministic, all no-assignment programs are no-ops
+}
+
+#[test]
+fn c19_holds_sweep_docs_and_examples() {
+  quiet();
+  let root = env!("CARGO_MANIFEST_DIR");
+  let mut files = vec![];
+  for dir in ["docs", "examples"] {
+    let mut stack = vec![std::path::PathBuf::from(format!("{}/{}", root, dir))];
+    while let Some(d) = stack.pop() {
+      let Ok(rd) = std::fs::read_dir(&d) else { continue };
+      for e in rd { let e = e.unwrap().path();
+        if e.is_dir() { stack.push(e); } else if e.extension().map(|x| x == "mec").unwrap_or(false) { files.push(e); } }
+    }
+  }
+  let mut progs: Vec<String> = vec![];
+  for f in files {
+    let s = std::fs::read_to_string(&f).unwrap();
+    let mut rest = s.as_str();
+    while let Some(i) = rest.find("```mech") {
+      let after = &rest[i..];
+      let Some(nl) = after.find('\n') else { break };
+      let body = &after[nl + 1..];
+      let Some(end) = body.find("```") else { break };
+      progs.push(body[..end].to_string());
+      rest = &body[end + 3..];
+    }
+    progs.push(s.clone());
+  }
+  let refs: Vec<&str> = progs.iter().map(|x| x.as_str()).collect();
+  check_c19(&refs);
+}
+
+#[test]
+fn c19_holds_targeted() {
+  check_c19(&[
+    "x := 1; y := x + 1", "x := 1..5; y := x * 2", "x := 1..=5; y := 1..2..9", "x := 250u8..=255u8", "x := 0..0.1..=1", "x := 1u8..2u8..=255u8",
+    "a := [1 2 3]; b := [4 5 6]; c := [a b]; d := [a; b]",
+    "m := [1 2 3; 4 5 6]; a := m[1,2]; b := m[:,1]; c := m[2,:]; d := m[m > 2]",
+    "m := [1 2 3; 4 5 6]; d := m[m > 10]", "m := [1 2 3; 4 5 6]; d := m[[true true], [true false true]]",
+    "x := {1,2,3}; y := {3,4}; z := x ∪ y; w := x ∩ y", "x := {1,2,3}; y := set/powerset(x); z := set/cartesian-product(x, x)",
+    "s := {1,2,3}; t := set/insert(s, 4); u := set/size(t)",
+    "x := (1,2,\"a\"); y := x.1", "x := {a: 1, b: \"z\"}; y := x.a", "x := |a<f64> b<f64>| 1 2 | 3 4 |; y := x.a",
+    "a := |id<u64> v<u8>| 1 10 | 2 20 |; b := |id<u64> w<u8>| 2 200 | 3 30 |; x := a ⟗ b; y := a ⋈ b",
+    "x := 5; y := x", "x := \"a\"; y := x + \"b\"", "a := [1 2; 3 4]; b := a ** a; c := a \\ [1; 2]",
+    "x := [1 2 3; 4 5 6]; y := stats/sum/row(x); z := stats/sum/column(x)", "x := math/sin(1); y := math/sqrt([4 9])",
+    "x := 300; y<u8> := 200; z<f32> := y", "x<u8> := 300; y<u8> := -1; z<i8> := 200", "x := [300 -1 3.7]; y<[u8]> := x; z<[i8]> := x",
+    "x<r64> := 0.5; y<f64> := 1/3; z<u8> := 3.7; w<i8> := -3.7", "x := 5; z<[u8]> := [1 2 3]; w<[f64]:1,3> := 1",
+    "add(a<f64>, b<f64>) => <f64>\n  ├ (a, b) => a + b.\n\nx := add(1, 2)",
+    "x<u64?> := 4u64; y := x? | x > 3u64 => x | * => 0u64.", "x := [1 2 _ 5]; y := x? | x => x | * => 0.",
+    "x := {a * 2 | a <- {1,2,3}}", "x := [a * 2 | a <- [1 2 3]]", "x := 1 / 0; y := x - x", "x := combinatorics/n-choose-k(5,2)",
+    "m := {\"a\": 1, \"b\": 2}; y := m{\"a\"}", "x := (1, [1 2 3], {a: 1}); (a, b, c) := x; d := b + 1",
+    // with assignments: deterministic, and 3 single steps == one request for 3 steps
+    "~x := 1; y := x + 1", "~x := 1; x = x + 1", "~x := 1; x += 1", "~x := [1 2 3]; x[1] = x[2] + x[3]; x[2] += 1",
+    "~x := 1; ~y := 2; x = y + 1; y = x + 1", "~x := 1; y := x; x = 5", "~x := [1 2 3]; y := x; z := x[1]; x[1] = 10",
+    "~x := 1; s := {a + x | a <- {1,2}}; x = x + 1", "~x := |a<u64> b<u8>| 1 2 | 3 4 |;y := |a<u64> b<u8>| 5 6 | 7 8 |; x += y; x[4]",
+  ]);
+}
+
+// Observation (not demanded by the letter of C19, which only asks for determinism): evaluating a set/matrix comprehension wipes
+// the evaluation plan built so far — comprehension_environments() (src/interpreter/src/expressions.rs l.105-107) does
+// `let mut new_p = p.clone(); new_p.clear_plan();` but Plan::clone (src/core/src/functions.rs l.250-252) shares the Rc, so the
+// *parent's* plan is cleared.  A trailing, unrelated, assignment-free statement therefore changes what re-evaluation does.
+#[test]
+fn obs_comprehension_clears_the_plan_of_earlier_statements() {
+  quiet();
+  let stepped = |s: &str| { let tree = parser::parse(s).unwrap(); let mut i = Interpreter::new(0); i.interpret(&tree).unwrap(); i.step(0, 3);
+                            snap(&i).into_iter().find(|(n, _)| n == "x").unwrap().1 };
+  let a = stepped("~x := 1; x = x + 1");                          // x == 5 after 3 steps
+  let b = stepped("~x := 1; x = x + 1; s := {a | a <- {1,2}}");  // x == 2: the assignment is no longer in the plan
+  assert_eq!(a, b);
+}
+// Observation: re-evaluation of `x += 1` accumulates for a scalar but not for a matrix literal, because the variable aliases the
+// output of the literal's horzcat step, which resets it on every step (deterministic, so C19 itself holds).
+#[test]
+fn obs_matrix_op_assign_does_not_accumulate_on_step() {
+  quiet();
+  let stepped = |s: &str| { let tree = parser::parse(s).unwrap(); let mut i = Interpreter::new(0); i.interpret(&tree).unwrap(); i.step(0, 3);
+                            snap(&i).into_iter().find(|(n, _)| n == "x").unwrap().1 };
+  assert!(stepped("~x := 1; x += 1").starts_with("5"));
+  assert!(stepped("~x := [1 2 3]; x += 1").contains("5"), "{}", stepped("~x := [1 2 3]; x += 1")); // stays [2 3 4]
 }
